@@ -6,7 +6,7 @@ set_option linter.unusedSectionVars false
 set_option linter.unusedVariables false
 namespace Frappy.Lemmas.C01
 open FloatOps DType Frappy.Datatypes Frappy.Spec.C01
-open PVal (toFloat? seqItems? prevItems prevFields dictGet dictSet)
+open PVal (toFloat? seqItems? prevItems prevFields dictGet dictSet isNone given notOffered)
 
 variable {F : Type} [FloatOps F] [LawfulFloatOps F]
 
@@ -183,10 +183,13 @@ theorem conv_canon : ∀ (dt : DType F) (v : PVal F) (prev : Option (PVal F)) (r
       split at h
       · obtain ⟨acc, hacc, hr⟩ := map_ok h
         have hacc := mapErr_ok hacc
-        obtain ⟨a, _, _⟩ := foldFields_ok (M := fun k x => Canon x)
-          (fun k v r hkv => convMember_canon ms k v r hwf.2.2.2 hkv) items _ acc hacc
+        obtain ⟨acc0, h0, h1⟩ := structFold_ok hacc
+        have hf : ∀ k v r, convMember .validate ms k v = some (.ok r) → Canon r :=
+          fun k v r hkv => convMember_canon ms k v r hwf.2.2.2 hkv
+        obtain ⟨a0, _, _⟩ := foldFields_ok (M := fun k x => Canon x) hf _ _ acc0 h0
+        obtain ⟨a, _, _⟩ := foldFields_ok (M := fun k x => Canon x) hf items _ acc h1
         rw [hr]; simp only [Canon]
-        exact canonFields_of_forall acc (a (prevFields_canon hp))
+        exact canonFields_of_forall acc (a (a0 (by intro kv hkv; cases hkv)))
       · cases h
     · cases h
 theorem convTuple_canon : ∀ (ts : List (DType F)) (vs : List (PVal F)) (ps : Option (List (PVal F)))
